@@ -18,6 +18,8 @@ def scenarios(tmp):
     with open(src, "w") as f:
         f.write("add rax, rbx\nsub rax, rcx\nret\n")
     out = os.path.join(tmp, "out.bin")
+    empty = os.path.join(tmp, "empty.asm")
+    open(empty, "w").close()
     bigsrc = os.path.join(tmp, "big.asm")
     with open(bigsrc, "w") as f:
         f.write(BIG)
@@ -34,6 +36,9 @@ def scenarios(tmp):
         "S6-fitting-growth": ["i", "k16", "A" + hexec.esc(EARLY), "A" + hexec.esc(BIG), "o2", "G", "d"],
         "S7-file-growth": ["i", "A" + hexec.esc(EARLY), "f" + hexec.esc(bigsrc), "o2", "G", "d"],
         "S8-counting-growth": ["i", "A" + hexec.esc(EARLY), "N16:" + hexec.esc(BIG), "o2", "G", "d"],
+        # the degenerate file: nothing to read, but the same resources are requested
+        "S10-empty-file": ["i", "A" + hexec.esc(EARLY), "f" + hexec.esc(empty), "o2", "G", "d"],
+        "S11-empty-file-counting": ["c256:p:cc", "A" + hexec.esc(EARLY), "n4:" + hexec.esc(empty), "o2", "G", "d"],
         "S9-bin-file-twice": ["i", "A" + hexec.esc(EARLY), "B" + hexec.esc(out), "A" + hexec.esc(BIG), "B" + hexec.esc(out), "G",
                               "d"],
     }
@@ -154,7 +159,7 @@ def run(tier, seed):
     tmp = hexec.tmpdir()
     try:
         S, out = scenarios(tmp)
-        rep.rule = ("10 API scenarios (caller buffer; internal buffer growing twice, with retry, under chunk fitting, from the file entry point, "
+        rep.rule = ("12 API scenarios (empty file through both file entry points; caller buffer; internal buffer growing twice, with retry, under chunk fitting, from the file entry point, "
                     "in a counting call; file assembly; file counting; binary output once and twice); "
                     "the library-side libc calls (malloc mmap mremap munmap open fstat close fopen fwrite fclose) of each are "
                     "recorded through -Wl,--wrap interposers, then the scenario is re-run once for EVERY call index refused "
